@@ -60,6 +60,29 @@ def gen_keys(rng):
                        "<c-v>GI#<esc>", "<c-v>jj$Ax<esc>", "999x", "999dd", "9999l", "100000j", "dG", "dgg", "yyP" * 5, "J" * 6, ">>" * 3 + "<<" * 4, "gUU", "g??", "~" * 10, "qq", "@@", "zz", "ZZ", "<f5>", "<c-a>"])
 
 
+def gen_search(rng, text):
+    """a search, then n / N: the pattern is a piece of the text - a code point out of the middle of a character
+    included (a combining accent, the line feed of a CRLF pair, a joiner) - or a pattern that matches nothing's width"""
+    cps = list(text) or ["a"]
+    r = rng.random()
+    if r < 0.5:
+        i = rng.randrange(len(cps))
+        pat = "".join(cps[i:i + rng.choice([1, 1, 2])])
+        pat = re.sub(r"([\\.*+?()\[\]{}|^$/<])", r"\\\1", pat).replace("\n", "\\n").replace("\r", "\\r").replace("\t", "\\t").replace("\x00", "")
+    else:
+        pat = rng.choice(["$", "^", "\\n", "\\r", "\\b", "x*", "\u0301", "\u200d", "\ufe0f", ".", "\\s*$", "[^a]", "\\W", "a|"])
+    if not pat:
+        pat = "a"
+    first = rng.choice(["/", "/", "?"]) + pat + "<CR>"
+    nxt = lambda: rng.choice(["n", "n", "N", "2n", "3N", "dn", "cNx<esc>", "yn", "vn<esc>", "nn", "Nn", "nx", "n."])
+    k = rng.random()
+    if k < 0.4:
+        return [rng.choice(["-m", "-c"]), first, rng.choice(["-m", "-c"]), nxt()]
+    if k < 0.8:
+        return [rng.choice(["-m", "-c"]), first + nxt() + rng.choice(["", nxt()])]
+    return ["-m", first, "-r", "1", str(rng.randint(1, 3)), "-c", nxt()]
+
+
 def gen_argv(rng):
     r = rng.random()
     if r < 0.5:
@@ -172,7 +195,7 @@ def run(chk, binary):
             kind = "vic" if len(argv) == 1 else "flags"
         else:
             text = rng.choice(TEXTS)
-            argv = gen_argv(rng)
+            argv = gen_argv(rng) if rng.random() >= 0.08 else gen_search(rng, text)
             kind = "flags"
             if argv is None:
                 argv = [gen_vic(rng)]
